@@ -33,18 +33,29 @@ type C04Case struct {
 	Ops     []C04Op `json:"ops"`
 }
 
+// initialize requests the server rejects (answered with a JSON-RPC error): whatever id the answer carries is an issued id
+var c04BadInits = []string{
+	`{"jsonrpc":"2.0","id":1,"method":"initialize"}`,
+	`{"jsonrpc":"2.0","id":1,"method":"initialize","params":[]}`,
+	`{"jsonrpc":"2.0","id":1,"method":"initialize","params":{}}`,
+	`{"jsonrpc":"2.0","id":1,"method":"initialize","params":{"protocolVersion":7}}`,
+	`{"jsonrpc":"2.0","id":1,"method":"initialize","params":{"capabilities":{},"clientInfo":{"name":"x","version":"1"}}}`,
+}
+
 var garbageIDs = []string{"x", "../../etc/passwd", "0000", "deadbeef", "é", " ", "null", "00000000000000000000000000000000 ", strings.Repeat("a", 5000), "%00"}
 
 func genC04(t *rapid.T) C04Case {
 	c := C04Case{Cfg: rapid.SampledFrom([]int{0, 0, 0, 0, 1, 2}).Draw(t, "cfg"), GetSSE: rapid.IntRange(0, 4).Draw(t, "get") != 0, PostSSE: rapid.Bool().Draw(t, "postsse")}
 	n := rapid.IntRange(1, 14).Draw(t, "nops")
 	for i := 0; i < n; i++ {
-		op := C04Op{Op: rapid.SampledFrom([]string{"init", "init", "req", "req", "req", "notif", "resp", "get", "get", "closestream", "delete", "delete", "deleterace"}).Draw(t, "op")}
+		op := C04Op{Op: rapid.SampledFrom([]string{"init", "init", "badinit", "req", "req", "req", "notif", "resp", "get", "get", "closestream", "delete", "delete", "deleterace"}).Draw(t, "op")}
 		op.Class = rapid.SampledFrom([]string{"none", "live", "live", "live", "dead", "dead", "never", "garbage"}).Draw(t, "class")
 		op.Sess = rapid.IntRange(0, 4).Draw(t, "sess")
 		switch op.Op {
 		case "req":
 			op.Arg = rapid.SampledFrom([]string{"ping", "tools/list", "tools/call", "sess", "sess", "chatty", "chatty"}).Draw(t, "method")
+		case "badinit":
+			op.Arg = rapid.SampledFrom(c04BadInits).Draw(t, "badinit")
 		}
 		if op.Class == "garbage" {
 			op.Arg2()
@@ -266,11 +277,13 @@ func execC04(c C04Case) *Failure {
 			return Failf(fmt.Sprintf("C04/not-refused/%s/%s/got%d", op.Op, class, ex.Status), "%s: status %d, want %v (body %.120q)", where, ex.Status, want, ex.Body)
 		}
 		switch op.Op {
-		case "init", "req", "notif", "resp":
+		case "init", "badinit", "req", "notif", "resp":
 			var body string
 			switch op.Op {
 			case "init":
 				body = string(InitRequest("1", "2025-03-26"))
+			case "badinit":
+				body = op.method()
 			case "req":
 				switch op.method() {
 				case "tools/call":
@@ -296,6 +309,9 @@ func execC04(c C04Case) *Failure {
 				if f := checkHeader(ex, false); f != nil {
 					return f
 				}
+				if op.Op == "badinit" {
+					break
+				}
 				if op.Op == "init" || op.Op == "req" {
 					if ex.Status != 200 || answerFrames(ex) != 1 {
 						return Failf("C04/sessionless-request-refused", "%s: status %d frames %d (body %.120q)", where, ex.Status, len(ex.Frames), ex.Body)
@@ -308,6 +324,18 @@ func execC04(c C04Case) *Failure {
 							return Failf("C04/stateless-answer-depends-on-history", "%s: answer %.300s differs from a fresh server's %.300s", where, normaliseBody(ex), normaliseBody(fx))
 						}
 					}
+				}
+			case class == "none" && op.Op == "badinit":
+				// the handshake is rejected; if the answer names a session all the same, that session has been issued and is live
+				if nid := ex.Header.Get("Mcp-Session-Id"); nid != "" {
+					if live[nid] || dead[nid] {
+						return Failf("C04/id-reused", "%s: issued id %q was issued before", where, nid)
+					}
+					if f := checkIDFormat(nid); f != nil {
+						return f
+					}
+					issued = append(issued, nid)
+					live[nid] = true
 				}
 			case class == "none" && op.Op == "init":
 				if ex.Status != 200 {
@@ -335,6 +363,13 @@ func execC04(c C04Case) *Failure {
 				}
 			default: // live id
 				switch op.Op {
+				case "badinit":
+					if ex.Status == 404 || ex.Status == 400 && answerFrames(ex) == 0 {
+						return Failf("C04/live-request-not-served", "%s: status %d body %.120q", where, ex.Status, ex.Body)
+					}
+					if f := checkHeader(ex, ex.Header.Get("Mcp-Session-Id") != ""); f != nil {
+						return f
+					}
 				case "init", "req":
 					if ex.Status != 200 || answerFrames(ex) != 1 {
 						return Failf("C04/live-request-not-served", "%s: status %d frames %d body %.120q", where, ex.Status, len(ex.Frames), ex.Body)
